@@ -102,14 +102,10 @@ let rt_cause (dump : sexp) : string option =
   let has p = exists_node p dump in
   let is_strnode = function L [A ("str" | "desc"); S _; A _] -> true | _ -> false in
   if has (function L [A ("str" | "desc"); S r; A _] -> String.contains r '\000' | _ -> false) then Some "rt-nul-in-string"
-  else if has (function L [A "op"; A "query"; L [A "none"]; L []; L (_ :: _); _] -> true | _ -> false) then Some "rt-anon-query-directives"
   else if has (function
       | L [A "str"; S r; A b] -> not (string_stable_b (bytes_of_string r) (b = "t"))
       | L [A "desc"; S r; A b] -> not (description_stable_b (bytes_of_string r) (b = "t"))
       | _ -> false) then Some "rt-block-string-edge"
-  else if has (function L [A "schemadef"; _; _; _; L []] -> true | _ -> false) then Some "rt-sdl-empty-schema"
-  else if has (function L [A "schemadef"; _; L (A "desc" :: _); _; _] -> true | _ -> false) then Some "rt-sdl-schema-description-dropped"
-  else if has (function L (A "typedef" :: _ :: A "t" :: _ :: _ :: L (A "implements" :: _ :: _) :: _) -> true | _ -> false) then Some "rt-sdl-extend-implements-dropped"
   else if (match dump with
            | L (A "doc" :: defs) ->
              let rec go = function
@@ -168,7 +164,18 @@ let handle (x : sexp) : (string * string) list =
          if md <> idmp then add "mismatch" (Printf.sprintf "corr:C05/tree impl=%s model=%s" idmp md);
          let mc = b2s (print_doc None d) and mi = b2s (print_doc (Some (bytes_of_string "  ")) d) in
          if mc <> rt_p1 rtc then add "mismatch" (Printf.sprintf "corr:C05/print-compact impl=%s model=%s" (quote_string (rt_p1 rtc)) (quote_string mc));
-         if mi <> rt_p1 rti then add "mismatch" (Printf.sprintf "corr:C05/print-indent impl=%s model=%s" (quote_string (rt_p1 rti)) (quote_string mi))
+         if mi <> rt_p1 rti then add "mismatch" (Printf.sprintf "corr:C05/print-indent impl=%s model=%s" (quote_string (rt_p1 rti)) (quote_string mi));
+         (* hypotheses of the round-trip theorem, evaluated on the tree: parse_wf says wf_doc always holds;
+            the lexical hypothesis may fail only through an unstable string *)
+         if not (wf_doc d) then add "mismatch" "corr:C05/parse-wf wf_doc false on a parsed tree";
+         let stable = doc_strings_stable_b d in
+         let lc = lex_print_ok_b None d and li = lex_print_ok_b (Some (bytes_of_string "  ")) d in
+         if stable && not (lc && li) then
+           add "mismatch" (Printf.sprintf "corr:C05/lex-print strings stable but lexing the print does not give the token-level print (compact=%b indent=%b)" lc li);
+         (* the theorem: under the hypotheses the MODEL round-trips; then the implementation must too (checked below) *)
+         if lc then (match parse_bytes (print_doc None d) with
+                     | Ok (d2, _) when d2 = d -> ()
+                     | _ -> add "mismatch" "corr:C05/roundtrip-theorem model does not round-trip although hypotheses hold")
        end);
     (* ---------------- specs on the implementation's outputs *)
     if pv = "ok" then begin
